@@ -132,7 +132,18 @@ def _observe(cs, root, before, ctx, extra_roots=()):
 def run_case(cs):
     rng = cs.rng
     shape = rng.choice(["normal", "normal", "normal", "empty", "onlydirs", "onlyignored"])
-    if shape == "empty":
+    idx = int(cs.seed_str.rsplit(":", 1)[1])
+    if idx < 4 or rng.random() < 0.004:
+        shape = "bulk"
+    if shape == "bulk":
+        # record counts at and around the block sizes a writer may use: files + folders of one generation
+        n = [512, 1024, 256, 513][idx] if idx < 4 else rng.choice([255, 256, 257, 511, 512, 513, 1023, 1024, 2048])
+        nd = rng.choice([0, 0, 3, 12])
+        tree = {"d%02d" % i: None for i in range(nd)}
+        for i in range(n - nd):
+            tree[("d%02d/" % (i % nd) if nd else "") + "f%04d.bin" % i] = b"%d" % i
+        cs.count("trees_with_256_512_1024_records")
+    elif shape == "empty":
         tree = {}
     elif shape == "onlydirs":
         tree = {k: v for k, v in world.gen_tree(rng, max_files=0, max_dirs=4).items()}
